@@ -71,7 +71,6 @@ Variable joint : list V -> L.
 Variable point : St -> V.
 Variable reinit : nat -> (V -> L) -> St -> St.
 Variable trans : nat -> (V -> L) -> St -> R -> St.
-Variable tune : nat -> nat -> nat -> St -> St.
 Variable nst : nat -> nat.
 
 Notation ev := (@ev V L St).
@@ -80,8 +79,6 @@ Notation steps := (steps trans).
 Notation block_update := (block_update joint point reinit trans nst).
 Notation sweep := (sweep joint point reinit trans nst).
 Notation sample_n := (sample_n joint point reinit trans nst).
-Notation warmup_n := (warmup_n joint point reinit trans tune nst).
-Notation run_ops := (run_ops joint point reinit trans tune nst).
 
 (* n transitions of block i's sampler on target t, consuming rs j, rs (j+1), ... *)
 Fixpoint iter_trans (i : nat) (t : V -> L) (n j : nat) (rs : nat -> R) (s : St) : St :=
@@ -359,6 +356,10 @@ Proof.
   unfold last_col. rewrite rev_app_distr. reflexivity.
 Qed.
 
+Section WithTune.
+Variable tune : nat -> nat -> nat -> St -> St.
+Notation run_ops := (run_ops joint point reinit trans tune nst).
+
 Definition ops_len (ops : list op) : nat := fold_right (fun o a => op_len o + a) 0 ops.
 
 Theorem run_ops_app rnd ops1 : forall ops2 t0 x,
@@ -371,4 +372,5 @@ Qed.
 Theorem sample_twice rnd n m t0 x :
   run_ops rnd [OSample n; OSample m] t0 x = run_ops rnd [OSample (n + m)] t0 x.
 Proof. cbn [C09_Gibbs.run_ops]. now rewrite sample_n_app. Qed.
+End WithTune.
 End Wiring.
